@@ -121,10 +121,40 @@ CatOutcomes(e) ==
           ELSE IF isN /\ slen = 0 THEN {OkOut(CopyOkMem(e, dl, 0, s))}
           ELSE Classify(ok, fits, W, R, Rng(d, dmax), e, {})
 
+(* ---- the field functions.  strcpyfld_s copies exactly slen elements (NULs included) and nulls the rest of the field;
+   strcpyfldin_s copies at most slen characters of a terminated string and nulls the rest of the field; strcpyfldout_s
+   copies slen elements of a field and terminates them.  slen = 0 is documented as "EOK" before anything is looked at. *)
+FldRestCell(e) == IF e.slack = 1 THEN Ex(0, {"C08"}) ELSE OZ({"C08"})
+FldOutcomes(e) ==
+  LET a == e.pre  d == e.d  s == e.s  dmax == e.dmax  slen == e.slen
+  IN IF slen = 0 THEN {OkOut(Untouched(a))}
+     ELSE IF DestViol(e) # {} THEN Errs(DestViol(e), DestViolMem(e))
+     ELSE IF s = NULLP THEN Errs({ESNULLP}, ClearedMem(e, TRUE))
+     ELSE IF slen = HUGE THEN Errs({ESLEMAX}, ClearedMem(e, FALSE))
+     ELSE IF slen > dmax THEN Errs({ESNOSPC}, ClearedMem(e, FALSE))
+     ELSE IF e.fn = "strcpyfld_s" THEN
+        LET ok == {OkOut(Tmpl(a, [i \in Rng(d, dmax) |-> IF i < d + slen THEN Ex(a[s + (i - d)], {"C06"}) ELSE FldRestCell(e)]))}
+        IN Classify(ok, TRUE, Rng(d, slen), Rng(s, slen), Rng(d, dmax), e, {})
+     ELSE IF e.fn = "strcpyfldin_s" THEN
+        LET len == ScanLen(a, s, slen)                      \* at most slen characters, stopping at the terminator
+            rn  == IF len < slen THEN len + 1 ELSE len
+            ok  == {OkOut(Tmpl(a, [i \in Rng(d, dmax) |-> IF i < d + len THEN Ex(a[s + (i - d)], {"C06"}) ELSE Ex(0, {"C06"})]))}
+        \* as for the slack nulling of strcpy_s, the fill behind the first null is not counted as "written" for the overlap rule
+        IN Classify(ok, TRUE, Rng(d, Min(len + 1, dmax)), Rng(s, rn), Rng(d, dmax), e, {})
+     ELSE   \* strcpyfldout_s: slen elements and the terminator
+        LET m   == Min(slen, dmax - 1)
+            okm == Tmpl(a, [i \in Rng(d, dmax) |-> IF i < d + m THEN Ex(a[s + (i - d)], {"C06"})
+                                                   ELSE IF i = d + m THEN Ex(0, {"C03", "C06"}) ELSE FldRestCell(e)])
+            \* slen = dmax: the documented code for "does not fit" is only given for slen > dmax; the truncated
+            \* string is what the implementation documents by example - both are admitted
+            extra == IF slen = dmax THEN Errs({ESNOSPC}, ClearedMem(e, FALSE)) ELSE {}
+        IN Classify({OkOut(okm)}, TRUE, Rng(d, m + 1), Rng(s, m), Rng(d, dmax), e, {}) \cup extra
+
 StrCopyOutcomes(e) ==
   CASE e.fn \in CopyFns  -> CopyOutcomes(e)
     [] e.fn \in NCopyFns -> NCopyOutcomes(e)
     [] e.fn \in CatFns \cup NCatFns -> CatOutcomes(e)
+    [] e.fn \in FldFns -> FldOutcomes(e)
 
 (* ---- named deviations: documented behaviour of the pinned code that contradicts a
         listed property; precise condition, precise outcome ---- *)
